@@ -557,8 +557,35 @@ class Shapes:
             return True
         return None if same else False
 
+    def _lookup_ends(self, cs) -> list:
+        """Ends of pairs whose layer is looked up somewhere in the conditions (None for a lookup of something else)."""
+        out = []
+        seen: set[int] = set()
+
+        def visit(e: ast.AST, depth: int = 0) -> None:
+            if depth > 4:
+                return
+            for x in ast.walk(e):
+                if id(x) in seen:
+                    continue
+                seen.add(id(x))
+                if isinstance(x, ast.Call):
+                    a = self._is_lookup(x)
+                    if a is not None:
+                        out.append(self._endpoint(a))
+                elif isinstance(x, ast.Name) and isinstance(x.ctx, ast.Load):
+                    v = single_value(self.view, x)
+                    if v is not x:
+                        visit(v, depth + 1)
+
+        for c, _p in cs:
+            visit(c)
+        return out
+
     def _filtered(self, event: ast.AST, elt: ast.expr, was) -> object:
-        """True when the guard of the event implies that the two ends of the added pair lie in different layers."""
+        """True  - the guard of the event implies that the two ends of the added pair lie in different layers;
+        False - it does not (no layer test, a test of one end only, the same end twice, the wrong polarity);
+        None  - a test involving both ends guards the addition but was not understood."""
         key = (id(event), id(elt))
         if key in self._clean_cache:
             return self._clean_cache[key]
@@ -571,27 +598,27 @@ class Shapes:
             if implies(f, f_not(atom(f"SAME:{pid}"))) and f"SAME:{pid}" in same:
                 res = True
         if res is False and not same:
-            # some comparison of function results computed from the pair guards the addition: possibly a layer test in disguise
-            base_ids = {i for i in ids if not i.startswith("(")} | {z.strip() for i in ids if i.startswith("(") for z in i.strip("()").split(",")}
-            for c, _p in cs:
-                c2 = single_value(self.view, c) if isinstance(c, ast.Name) else c
-                for x in ast.walk(c2):
-                    if isinstance(x, ast.Compare) and any(isinstance(y, ast.Call) for y in ast.walk(x)):
-                        mentioned = {z.id for z in ast.walk(x) if isinstance(z, ast.Name)}
-                        expanded = set(mentioned)
-                        for nm in mentioned:
-                            v = single_value(self.view, ast.Name(id=nm, ctx=ast.Load()))
-                            expanded |= {z.id for z in ast.walk(v) if isinstance(z, ast.Name)}
-                        if expanded & base_ids:
-                            res = None
+            ends = self._lookup_ends(cs)
+            mine = [e for e in ends if e is not None and e[0] in ids]
+            if ends and (any(e is None for e in ends) or {e[1] for e in mine} == {0, 1}):
+                # both ends (or something unresolved) are looked up, but not in a comparison that was understood
+                res = None
+            elif not ends:
+                # some comparison of function results computed from the pair guards the addition: possibly a layer test in disguise
+                base_ids = {i for i in ids if not i.startswith("(")} | {z.strip() for i in ids if i.startswith("(") for z in i.strip("()").split(",")}
+                for c, _p in cs:
+                    c2 = single_value(self.view, c) if isinstance(c, ast.Name) else c
+                    for x in ast.walk(c2):
+                        if isinstance(x, ast.Compare) and any(isinstance(y, ast.Call) for y in ast.walk(x)):
+                            mentioned = {z.id for z in ast.walk(x) if isinstance(z, ast.Name)}
+                            expanded = set(mentioned)
+                            for nm in mentioned:
+                                v = single_value(self.view, ast.Name(id=nm, ctx=ast.Load()))
+                                expanded |= {z.id for z in ast.walk(v) if isinstance(z, ast.Name)}
+                            if expanded & base_ids:
+                                res = None
             if res is None:
                 self.unknown_filters.append(event)
-        if res is False:
-            # a layer lookup takes part in the guard but the test was not understood
-            if same or any(isinstance(x, ast.Call) and isinstance(x.func, ast.Attribute) and x.func.attr == LOOKUP for c, _p in cs for x in ast.walk(single_value(self.view, c) if isinstance(c, ast.Name) else c)) or self._lookup_alias_in(cs):
-                if not any(implies(f, atom(a)) for a in same):
-                    res = None
-                    self.unknown_filters.append(event)
         self._clean_cache[key] = res
         return res
 
